@@ -765,14 +765,19 @@ def im12(ctx: Ctx):
                "depends on which equal key was seen first", where(fi, fi.node), sample="str/int/bool/None parameters only")
 
 
-def im13(ctx: Ctx, only_stale=False):
+def im13(ctx: Ctx, only_stale=False, only_keys=None, why=""):
     """IM13: the cache dict of a URL is written in place only by that URL's own lazy accessors (`self._cache[...] = ...` in a
     method) or while the object is being created in the same function. A function that writes into the cache of any other URL
     - the result of a memoised constructor, an argument, another URL it read - plants entries in an object other callers and
     threads share, computed from something else than that object's own fields."""
     model = ctx.model
     rule = "IM13"
-    ctx.rule(rule, floor=2, what="in-place cache writes target self (own lazy fill) or an object created in the same function")
+    ctx.rule(rule, floor=0 if only_keys is not None else 2, what="in-place cache writes target self (own lazy fill) or an object created in the same function")
+    if only_keys is not None:
+        # scoped claim: today no function writes these keys in place, the unscoped rule (C08) carries the floor
+        ctx.instance(rule)
+        ctx.ob(rule, "<module _url>", f"in-place writes of the keys {', '.join(only_keys)[:60]}", True,
+               sample="every such write found is judged below; the unscoped rule runs under C08/C09/C10/C20", nontrivial=False)
     WRITERS = {"setdefault", "update", "pop", "popitem", "clear", "__setitem__", "__delitem__", "setitem"}
     for fi in pkg_funcs(model):
         if fi.module != "_url":
@@ -813,6 +818,14 @@ def im13(ctx: Ctx, only_stale=False):
                     ok = verdict
                     if not ok:
                         stale[id(e.node)] = True
+            if only_keys is not None:
+                # this property claims the writes that plant one of the cache keys its statement is about (a key that is not a
+                # constant may be any of them)
+                kt = e.index if e.kind == "store_sub" else (e.args[0] if e.args and e.method in ("setdefault", "__setitem__", "setitem", "pop", "__delitem__") else None)
+                if kt is not None and kt[0] == "const" and kt[1] not in only_keys:
+                    if not ok:
+                        ctx.note(f"IM13: write of {kt[1]!r} into the cache of {show(o)[:40]} in {fi.qual} (a condition of C08/C09/C10/C20, not of this property)")
+                    continue
             sites.setdefault(id(e.node), [e.node, show(o)[:50], []])[2].append(ok)
         for node, who, oks in sites.values():
             if only_stale and not all(oks) and not stale.get(id(node)):
